@@ -9,9 +9,9 @@ spec: FMachine (MiniFortran reference machine) evaluated by TLC through Trace_Tr
 pools: `core` = constructs the C back end is expected to translate; each other pool adds one construct."""
 from .. import lib_fm_transpile as T
 
-CORE = ('lb', 'step', 'lvafter', 'idiv', 'mod', 'intfn', 'sign', 'ipow', 'conv', 'while', 'select', 'section')
-POOLS = ('core', 'boundmod', 'fndiv', 'intcast', 'exitcycle')
-QUICK = {'core': 48, '*': 6}
+CORE = ('lb', 'step', 'lvafter', 'idiv', 'mod', 'intfn', 'sign', 'ipow', 'conv', 'while', 'select')
+POOLS = ('core', 'boundmod', 'fndiv', 'intcast', 'exitcycle', 'section', 'selneg')
+QUICK = {'core': 40, '*': 5}
 THOROUGH = {'core': 900, '*': 60}
 
 ASSUMPTIONS = [
